@@ -13,7 +13,7 @@ import (
 // Supported column types (name -> OID), per the PostgreSQL catalog.
 var OIDs = map[string]uint32{
 	"bool": 16, "bytea": 17, "name": 19, "int8": 20, "int2": 21, "int4": 23, "text": 25, "oid": 26,
-	"json": 114, "float4": 700, "float8": 701, "varchar": 1043, "date": 1082, "timestamp": 1114, "uuid": 2950,
+	"json": 114, "_int4": 1007, "_text": 1009, "float4": 700, "float8": 701, "varchar": 1043, "date": 1082, "timestamp": 1114, "uuid": 2950,
 }
 
 var TypeNames = []string{"bool", "int2", "int4", "int8", "float4", "float8", "text", "varchar", "name", "bytea", "uuid", "oid", "date", "timestamp", "json"}
